@@ -2,6 +2,7 @@
 from core import AnchorMissing, Origins, atom_match
 
 LEVEL = "other"
+CLAIMED = False   # until the D8 triage (writer shareable between threads) is settled
 EXPLANATION = """
 Protocol shape of fuel_core_services::seqlock, for all control-flow paths (not thread schedules):
 (1) SeqLockWriter::write: sequence.fetch_add(1, AcqRel) then fence(Acquire) dominate the catch_unwind
